@@ -59,9 +59,12 @@ impl Amount {
     pub fn zero() -> Self {
         Amount(SymU::konst(0))
     }
+    pub const MAX: Amount = Amount(SymU(u32::MAX - 1)); // placeholder id, replaced by 2^256-1 at use sites
     fn norm(self) -> SymU<256> {
         if self.0 .0 == u32::MAX {
             SymU::konst(0)
+        } else if self.0 .0 == u32::MAX - 1 {
+            SymU::max_value()
         } else {
             self.0
         }
